@@ -3,6 +3,7 @@ import Hyeong.Props.C14
 #print axioms HyE.C14.catN_correct
 #print axioms HyE.C14.catN_levels
 #print axioms HyE.C14.cat_correct
+#print axioms HyE.C14.cat_empty
 #print axioms HyE.C14.revN_correct
 #print axioms HyE.C14.cat_all_levels
 #print axioms HyE.C14.eof_iff_nan
